@@ -80,6 +80,8 @@ pub struct Sink<'a> {
     pub evaluations: u64,
     seen: u64,
     pub nontrivial: HashSet<u64>,
+    /// distinct non-trivial cases counted by an enumerator that never repeats a case
+    pub nt_enumerated: u64,
     pub counters: BTreeMap<String, u64>,
     pub dont_care: BTreeMap<String, u64>,
     pub violations: BTreeMap<String, (u64, String, Value)>,
@@ -96,6 +98,7 @@ impl<'a> Sink<'a> {
             evaluations: 0,
             seen: 0,
             nontrivial: HashSet::new(),
+            nt_enumerated: 0,
             counters: BTreeMap::new(),
             dont_care: BTreeMap::new(),
             violations: BTreeMap::new(),
@@ -122,6 +125,23 @@ impl<'a> Sink<'a> {
             }
         }
         true
+    }
+
+    /// Fast path for huge repetition-free enumerations: an executed case that held.
+    pub fn ok_enumerated(&mut self, nontrivial: bool) {
+        self.evaluations += 1;
+        if nontrivial {
+            self.nt_enumerated += 1;
+        }
+    }
+
+    pub fn want_sample(&self) -> bool {
+        self.evaluations >= self.next_sample_at && self.samples.len() < 12
+    }
+
+    pub fn push_sample(&mut self, v: Value) {
+        self.samples.push(v);
+        self.next_sample_at = self.evaluations * 4 + 1;
     }
 
     pub fn stopped(&self) -> bool {
@@ -211,6 +231,7 @@ pub trait Prop: Sync {
 fn merge_into(dst: &mut Sink, src: Sink) {
     dst.evaluations += src.evaluations;
     dst.nontrivial.extend(src.nontrivial);
+    dst.nt_enumerated += src.nt_enumerated;
     for (k, v) in src.counters {
         if k.starts_with("max_") {
             let e = dst.counters.entry(k).or_insert(0);
@@ -322,7 +343,7 @@ pub fn run(prop: &dyn Prop, ctx: &Ctx, replay: Option<&Value>) -> Value {
         "seed": ctx.seed,
         "replay": replay.is_some(),
         "evaluations": total.evaluations,
-        "distinct_nontrivial": total.nontrivial.len(),
+        "distinct_nontrivial": total.nontrivial.len() as u64 + total.nt_enumerated,
         "rule": prop.rule(ctx),
         "exhaustive": prop.exhaustive(ctx) && ctx.max_cases == 0 && ctx.stride == 1 && ctx.shard.1 == 1,
         "blocks_total": if replay.is_some() { 0 } else { prop.n_blocks(ctx) },
